@@ -128,7 +128,11 @@ class Arr(object):
 
   def __getitem__(self, key):
     key = self._norm_key(key)
-    if len(key) == 2 and isinstance(key[0], Arr) and _is_seq(key[1]):
+    if (len(key) == 2 and key[1] is None and isinstance(key[0], slice) and
+        self.ndim == 1 and key[0] == slice(None)):
+      return Arr([[x] for x in self.data])
+    if len(key) == 2 and isinstance(key[0], Arr) and (
+        _is_seq(key[1]) or isinstance(key[1], range)):
       # fancy: mat[idx_array, range(n)] -> element-wise select
       rows = key[0].data
       cols = list(key[1].data if isinstance(key[1], Arr) else key[1])
@@ -384,6 +388,11 @@ def hstack(arrs):
 
 def tile(a, reps):
   d = _to_data(a)
+  if isinstance(reps, list):
+    reps = tuple(reps)
+  if (isinstance(reps, tuple) and len(reps) == 2 and reps[0] == 1 and d and
+      isinstance(d[0], list)):
+    return Arr([list(row) * reps[1] for row in d])
   if isinstance(reps, tuple):
     if len(reps) == 2 and not isinstance(d[0], list):
       row = d * reps[1]
